@@ -69,6 +69,57 @@ def run(res, tier, build_ok):
                 cls(op, **kw)
             except Exception as e:
                 res.violation("cls=WriteSame16 ndob=1 blocksize=0 refused", "WRITE SAME(16) with NDOB needs no block size but is refused (%s)" % type(e).__name__, {"args": str(kw)[:200]})
+    # ---- 1b. the same through a facade attached to a device of every peripheral device type, every way of attaching
+    #          (SCSI(dev), SCSI(dev, 0), SCSI(None) then s(dev), re-targeted from another device), no block size given:
+    #          refused, nothing but the probing INQUIRY reaches the device
+    from pyscsi.pyscsi.scsi import SCSI
+    for dt in range(32):
+        for inq_extra in (0x00, 0x80):                # also with RMB set in the INQUIRY answer
+            def responder(cmd, dt=dt, inq_extra=inq_extra):
+                if cmd.cdb[0] == 0x12 and len(cmd.datain) > 4:
+                    cmd.datain[0] = dt
+                    cmd.datain[1] = inq_extra
+            for way in ("ctor", "ctor0", "call", "retarget"):
+                dev = devices.RecordingDevice(sets["spc"], responder)
+                try:
+                    if way == "ctor":
+                        fac = SCSI(dev)
+                    elif way == "ctor0":
+                        fac = SCSI(dev, blocksize=0)
+                    elif way == "call":
+                        fac = SCSI(None)
+                        fac(dev)
+                    else:
+                        fac = SCSI(devices.RecordingDevice(sets["spc"], None))
+                        fac(dev)
+                except Exception as e:
+                    res.tie_break("attaching to a device of type %d raised %s" % (dt, type(e).__name__), {"devicetype": dt, "way": way})
+                    continue
+                for name, meth in facade_name.items():
+                    c = bycls[name]
+                    st = std.get(c["module"].split(".")[-1], name)
+                    kw = c01.finalize_kwargs(c, c01.make_cases(c, st, rng, 1)[0], rng)
+                    kw.pop("blocksize", None)
+                    if name == "WriteSame16":
+                        kw["ndob"] = 0
+                    if kw.get("data") is None and "data" in kw:
+                        kw["data"] = bytearray(4)
+                    del dev.calls[:]
+                    offered = cmds.find_op(dev.opcodes, st["opname"]) is not None
+                    try:
+                        r = getattr(fac, meth)(**kw)
+                        got = "returned a %s" % type(r).__name__
+                    except Exception as e:
+                        got = type(e).__name__
+                    res.count("no block size x device type x way of attaching")
+                    ok = (got == "MissingBlocksizeException") if offered else (got in ("MissingBlocksizeException", "AttributeError"))
+                    if not ok or dev.calls:
+                        shown = {k: (v if isinstance(v, (int, type(None))) else "<bytes>") for k, v in kw.items()}
+                        res.violation("facade=%s devicetype no blocksize" % meth,
+                                      "SCSI.%s without a block size on a device of type %02Xh (attached by %s) is not refused: %s, %d command(s) sent" % (
+                                          meth, dt, way, got, len(dev.calls)),
+                                      {"facade": meth, "devicetype": dt, "inquiry_byte1": inq_extra, "way": way, "args": shown})
+            res.case(("bs0-devtype", dt, inq_extra), {"devicetype": dt, "inquiry_byte1": inq_extra, "ways": 4, "methods": len(facade_name)})
     # ---- 2. ATA: refused exactly when byte_block & t_type & t_length and no block size
     for name in ("ATAPassThrough12", "ATAPassThrough16"):
         c = bycls[name]
